@@ -5,7 +5,9 @@ from ._famprop import make
 
 def FAMS(tier):
     base = ["D", "R", "O", "K", "C", "V", "M", "U", "G", "CG", "H", "DF", "LONG"]
-    return base if tier == "quick" else base + ["E", "S", "T"]
+    # thorough: the expression and statement families at their quick bounds (their deep bounds are C01's and C02's; every case
+    # here costs two nslc.py runs, two loads and a reader process) plus the type grid
+    return base if tier == "quick" else base + ["E1", "S@quick", "T"]
 
 
 run, replay = make(
